@@ -91,3 +91,9 @@ add("C16", "c16", "exploration", 1000, 20000, module="harness26", toolchain="go1
     assumptions=["go1.26.8 testing/synctest: every event of an enumerated schedule is separated from the next by synctest.Wait, so the order is exact",
                  "members are scripted fakes (they answer when told, or only once their context is cancelled)",
                  "a leaked goroutine makes the runtime abort the process when the bubble ends: the failure is persisted before that and the driver reports it"])
+
+add("C10", "c10", "exploration", 2000, 60000, module="harness26", toolchain="go1.26.8",
+    assumptions=["go1.26.8 testing/synctest: time.Now inside ociauth is virtual, so expiry boundaries are exact",
+                 "the registry and token servers are an in-memory fake world (harness26/authworld) that grants exactly the scope it is asked for or refuses; tokens are self-describing",
+                 "tokens with less than the documented 1 s margin left may be reused or refreshed (the margin is a mechanism, not part of the statement)",
+                 "concurrent batches assert only the order-independent invariants (own / unexpired tokens)"])
